@@ -36,6 +36,8 @@ def gen_lines(rng, impl, tier):
         # the library's hello retry request (ServerHello layout, handshake type 6), every compression method code of the table
         hrr_random = 'cf21ad74e59a6111be1d8c021e65b891c2a211167abb8c5e079e09e2c8a8339c' if rng.random() < 0.5 else ws[2]
         lines.append('hrrenc %s %s %s %d %d %s' % (ws[1], hrr_random, ws[3], suite, rng.choice(tlsgen.codes_of('TlsCompressionMethodFactory')), exts))
+        for kind in ('C', 'D'):
+            lines.append('extenc %s %s' % (kind, ','.join(map(str, tlsgen.rnd_codes(rng, tlsgen.codes_of('TlsSignatureAndHashAlgorithmFactory'), 2, rng.choice([1, 3, 8]), grease=False, unknown=False)))))
         lines.append('certenc %s' % (','.join(framegen.rnd_bytes(rng, rng.choice([1, 5, 300])).hex() for _ in range(rng.choice([0, 1, 2, 3]))) or '-'))    # RFC 5246 7.4.2: certificate_list<0..2^24-1>, a client without a certificate sends an empty list
         cts = [v for _, v in dict(gen_tables.local_int_enums())['TlsContentType']]
         lines.append('recenc %d %d %s' % (rng.choice(cts), rng.choice(tlsgen.codes_of('TlsVersionFactory')), framegen.rnd_payload(rng).hex() or '-'))
